@@ -3,6 +3,8 @@ package envsched
 import (
 	"context"
 	"fmt"
+	"sync"
+	"sync/atomic"
 	"time"
 
 	"github.com/fogfish/golem/pipe/v2"
@@ -133,6 +135,87 @@ func forkF[A, B any](mode string, f func(A) (B, error)) fork.F[A, B] {
 	}
 }
 
+// Long-lived morphism values. A program builds `parse := pipe.Lift(f)` once and hands the same value to
+// stage after stage; two cases in three therefore take their F/FF from a process-wide registry (one value
+// per constructor x mode x function family, built on first use and reused by every later case of the
+// child process) instead of a fresh one. The registered function body dispatches to the world of the case
+// that is running (cases run one at a time). Whatever a morphism value remembers from an earlier stage -
+// an abort already signalled, a cached result, a context - then shows up as a wrong list in a later case;
+// replays run the case 20 times in one process, so the second run already has a used value.
+var (
+	curWorld atomic.Pointer[world]
+	sharedMu sync.Mutex
+	sharedFs = map[string]any{}
+)
+
+func (w *world) shared() bool {
+	c := w.c
+	return mix(len(c.Script)+len(c.Stage)*7+c.Cap*3+c.N, c.FSeed+77)%3 != 0
+}
+
+func sharedOf[T any](key string, mk func() T) T {
+	sharedMu.Lock()
+	defer sharedMu.Unlock()
+	if v, ok := sharedFs[key]; ok {
+		return v.(T)
+	}
+	v := mk()
+	sharedFs[key] = v
+	return v
+}
+
+func pipeFW[A, B any](w *world, name string, m func(*world, A) (B, error)) pipe.F[A, B] {
+	if !w.shared() {
+		return pipeF(w.c.Mode, func(a A) (B, error) { return m(w, a) })
+	}
+	return sharedOf("pipe/"+name+"/"+w.c.Mode, func() pipe.F[A, B] {
+		return pipeF(w.c.Mode, func(a A) (B, error) { return m(curWorld.Load(), a) })
+	})
+}
+
+func forkFW[A, B any](w *world, name string, m func(*world, A) (B, error)) fork.F[A, B] {
+	if !w.shared() {
+		return forkF(w.c.Mode, func(a A) (B, error) { return m(w, a) })
+	}
+	return sharedOf("fork/"+name+"/"+w.c.Mode, func() fork.F[A, B] {
+		return forkF(w.c.Mode, func(a A) (B, error) { return m(curWorld.Load(), a) })
+	})
+}
+
+func arrowOf(ctx context.Context, x int, out chan<- int) error {
+	return curWorld.Load().fArrow(ctx, x, out)
+}
+
+func pipeFFW(w *world) pipe.FF[int, int] {
+	arrow := w.fArrow
+	mk := func() pipe.FF[int, int] {
+		if w.c.Mode == "try" {
+			return pipe.TryF(arrow)
+		}
+		return pipe.LiftF(arrow)
+	}
+	if !w.shared() {
+		return mk()
+	}
+	arrow = arrowOf
+	return sharedOf("pipe/arrow/"+w.c.Mode, mk)
+}
+
+func forkFFW(w *world) fork.FF[int, int] {
+	arrow := w.fArrow
+	mk := func() fork.FF[int, int] {
+		if w.c.Mode == "try" {
+			return fork.TryF(arrow)
+		}
+		return fork.LiftF(arrow)
+	}
+	if !w.shared() {
+		return mk()
+	}
+	arrow = arrowOf
+	return sharedOf("fork/arrow/"+w.c.Mode, mk)
+}
+
 // user function bodies (run on library goroutines)
 func (w *world) fMap(x int) (int, error) {
 	w.called(x)
@@ -236,9 +319,10 @@ func (w *world) build() {
 	c := w.c
 	ctx := w.ctx
 	tick := time.Duration(c.Tick)
+	curWorld.Store(w)
 	switch c.Stage {
 	case "Map", "Map+StdErr":
-		out, exx := pipe.Map(ctx, w.addIn(c.Cap), pipeF(c.Mode, w.fMap))
+		out, exx := pipe.Map(ctx, w.addIn(c.Cap), pipeFW(w, "fMap", (*world).fMap))
 		if c.Stage == "Map+StdErr" {
 			addOut(w, &w.outs, "out", pipe.StdErr(out, exx))
 		} else {
@@ -246,12 +330,7 @@ func (w *world) build() {
 			addOut(w, &w.errs, "err", exx)
 		}
 	case "FMap", "FMap+StdErr":
-		var ff pipe.FF[int, int]
-		if c.Mode == "try" {
-			ff = pipe.TryF(w.fArrow)
-		} else {
-			ff = pipe.LiftF(w.fArrow)
-		}
+		ff := pipeFFW(w)
 		out, exx := pipe.FMap(ctx, w.addIn(c.Cap), ff)
 		if c.Stage == "FMap+StdErr" {
 			addOut(w, &w.outs, "out", pipe.StdErr(out, exx))
@@ -260,15 +339,15 @@ func (w *world) build() {
 			addOut(w, &w.errs, "err", exx)
 		}
 	case "Filter":
-		addOut(w, &w.outs, "out", pipe.Filter(ctx, w.addIn(c.Cap), pipeF(c.Mode, w.fPred)))
+		addOut(w, &w.outs, "out", pipe.Filter(ctx, w.addIn(c.Cap), pipeFW(w, "fPred", (*world).fPred)))
 	case "ForEach":
-		addOut(w, &w.dones, "done", pipe.ForEach(ctx, w.addIn(c.Cap), pipeF(c.Mode, w.fEach)))
+		addOut(w, &w.dones, "done", pipe.ForEach(ctx, w.addIn(c.Cap), pipeFW(w, "fEach", (*world).fEach)))
 	case "Void":
 		addOut(w, &w.dones, "done", pipe.Void(ctx, w.addIn(c.Cap)))
 	case "Fold":
 		addOut(w, &w.outs, "out", pipe.Fold(ctx, w.addIn(c.Cap), w.mon()))
 	case "Partition":
-		l, r := pipe.Partition(ctx, w.addIn(c.Cap), pipeF(c.Mode, w.fPred))
+		l, r := pipe.Partition(ctx, w.addIn(c.Cap), pipeFW(w, "fPred", (*world).fPred))
 		addOut(w, &w.outs, "out", l)
 		addOut(w, &w.outs, "out", r)
 	case "Join":
@@ -286,12 +365,12 @@ func (w *world) build() {
 	case "Take":
 		addOut(w, &w.outs, "out", pipe.Take(ctx, w.addIn(c.Cap), c.N))
 	case "TakeWhile":
-		addOut(w, &w.outs, "out", pipe.TakeWhile(ctx, w.addIn(c.Cap), pipeF(c.Mode, w.fPredW)))
+		addOut(w, &w.outs, "out", pipe.TakeWhile(ctx, w.addIn(c.Cap), pipeFW(w, "fPredW", (*world).fPredW)))
 	case "Throttling":
 		addOut(w, &w.outs, "out", pipe.Throttling(ctx, w.addIn(c.Cap), c.N, tick))
 		w.persist = 1
 	case "Emit", "Emit+StdErr":
-		out, exx := pipe.Emit(ctx, c.Cap, tick, pipeF(c.Mode, w.fEmit))
+		out, exx := pipe.Emit(ctx, c.Cap, tick, pipeFW(w, "fEmit", (*world).fEmit))
 		if c.Stage == "Emit+StdErr" {
 			addOut(w, &w.outs, "out", pipe.StdErr(out, exx))
 		} else {
@@ -299,7 +378,7 @@ func (w *world) build() {
 			addOut(w, &w.errs, "err", exx)
 		}
 	case "Unfold":
-		out, exx := pipe.Unfold(ctx, c.Cap, c.N, pipeF(c.Mode, w.fNext))
+		out, exx := pipe.Unfold(ctx, c.Cap, c.N, pipeFW(w, "fNext", (*world).fNext))
 		addOut(w, &w.outs, "out", out)
 		addOut(w, &w.errs, "err", exx)
 	case "New":
@@ -311,27 +390,22 @@ func (w *world) build() {
 		addOut(w, &w.outs, "out", eg)
 	// ---- fork
 	case "fork.Map":
-		out, exx := fork.Map(ctx, c.Par, w.addIn(c.Cap), forkF(c.Mode, w.fMap))
+		out, exx := fork.Map(ctx, c.Par, w.addIn(c.Cap), forkFW(w, "fMap", (*world).fMap))
 		addOut(w, &w.outs, "out", out)
 		addOut(w, &w.errs, "err", exx)
 	case "fork.FMap":
-		var ff fork.FF[int, int]
-		if c.Mode == "try" {
-			ff = fork.TryF(w.fArrow)
-		} else {
-			ff = fork.LiftF(w.fArrow)
-		}
+		ff := forkFFW(w)
 		out, exx := fork.FMap(ctx, c.Par, w.addIn(c.Cap), ff)
 		addOut(w, &w.outs, "out", out)
 		addOut(w, &w.errs, "err", exx)
 	case "fork.Filter":
-		addOut(w, &w.outs, "out", fork.Filter(ctx, c.Par, w.addIn(c.Cap), forkF(c.Mode, w.fPred)))
+		addOut(w, &w.outs, "out", fork.Filter(ctx, c.Par, w.addIn(c.Cap), forkFW(w, "fPred", (*world).fPred)))
 	case "fork.Partition":
-		l, r := fork.Partition(ctx, c.Par, w.addIn(c.Cap), forkF(c.Mode, w.fPred))
+		l, r := fork.Partition(ctx, c.Par, w.addIn(c.Cap), forkFW(w, "fPred", (*world).fPred))
 		addOut(w, &w.outs, "out", l)
 		addOut(w, &w.outs, "out", r)
 	case "fork.ForEach":
-		addOut(w, &w.dones, "done", fork.ForEach(ctx, c.Par, w.addIn(c.Cap), forkF(c.Mode, w.fEach)))
+		addOut(w, &w.dones, "done", fork.ForEach(ctx, c.Par, w.addIn(c.Cap), forkFW(w, "fEach", (*world).fEach)))
 	case "fork.Void":
 		addOut(w, &w.dones, "done", fork.Void(ctx, c.Par, w.addIn(c.Cap)))
 	case "fork.Fold":
